@@ -11,6 +11,17 @@ row model only.  Every public way of decoding genotypes is then compared with it
   haplotypes()          samples x isolated_as_missing x missing_data_character x left/right
   alignments()/as_fasta reference-sequence options x missing_data_character x samples x left/right
   Variant.has_missing_data / num_missing / num_alleles / counts() / frequencies() / states()
+  fresh Variant per site    the first decode() of a new Variant seeks from the null tree (either half of the sequence,
+                        exactly L/2); positional constructor; decode(site_id=..) / numpy integer ids
+  write_fasta           path / pathlib.Path / open text file (as_fasta is the StringIO form)
+  as_nexus / write_nexus  the DATA block (alignments with '?' as default missing character), include_alignments
+  to_macs               genotype column of every SITE line (renders variants(copy=False))
+  argument forms        samples as list / tuple / range / int8..uint64 arrays / strided and read-only views;
+                        left/right as float / int / numpy scalars / -0.0; node and site ids around 2^31 and 2^32
+                        (must raise, never wrap); the tree sequence itself fresh / pickled / dumped and loaded
+  instance classes      lib/props/c03_gen.py: `edge` (sites at 0, exactly L/2, on and just before breakpoints, at the
+                        last position; isolated samples with 0/1/2 mutations; 4/5 .. 64/65 distinct states) and `big`
+                        (>= 255 children / roots, depth >= 1000, >= 129 states, alleles of >= 256 / 65536 characters)
 
 EITHER zones (documentation leaves them open; both behaviours are accepted):
   E1  which exception class is raised for a documented error (any Exception subclass is accepted).
@@ -23,11 +34,21 @@ EITHER zones (documentation leaves them open; both behaviours are accepted):
       output must be the consistent one (span-length: offset from `left`; full-length: sliced).
   E5  degenerate-but-in-range intervals (left == right, left == L, right == 0): error or empty result.
   E6  state of a Variant after a decode() that raised: not inspected; the next successful decode must be right.
+  E7  to_macs is not part of the statement: any exception is accepted; when it returns, the genotype strings must
+      be the first characters of the reference alleles.
+  E8  counts()/frequencies() with a user allele tuple that contains duplicates: only the entries of the DUPLICATED
+      strings are open (the returned mapping has one key per string; which occurrence's count it keeps is not
+      documented); every other allele and the missing-data entry must be exact.
 Allele order beyond index 0 is unspecified: genotypes are compared through allele strings.
 """
 import collections
+import io
 import logging
 import math
+import os
+import pathlib
+import pickle
+import tempfile
 import warnings
 
 import numpy as np
@@ -36,6 +57,7 @@ import tskit
 from lib import gen
 from lib.harness import case_rng
 from lib.model import NODE_IS_SAMPLE, NULL, allele_at, forest, is_missing, sort_edges_key
+from lib.props import c03_gen
 from lib.tsk import to_ts
 
 ID = "C03"
@@ -45,43 +67,82 @@ logging.disable(logging.WARNING)  # Variant.frequencies logs a warning for every
 END = object()
 
 
+def _mix(k):
+    """Deterministic scrambling of the case number: the family of a case must not resonate with the number of
+    worker shards (case idx is dealt out modulo 1..16), so fixed periods are avoided."""
+    x = (k * 0x9E3779B1 + 0x7F4A7C15) & 0xFFFFFFFF
+    x ^= x >> 15
+    x = (x * 0x85EBCA6B) & 0xFFFFFFFF
+    x ^= x >> 13
+    return x % 1000
+
+
+# per mille of the case stream: fixed shares, so that the rare-trigger families are frequent on a loaded machine too
+SHARES = [("msprime", 20), ("big", 15), ("edge", 230), ("align", 255), ("walk", 480)]
+
+
+def case_kind(k):
+    x = _mix(k)
+    for name, share in SHARES:
+        if x < share:
+            return name
+        x -= share
+    return "walk"
+
+
 def cases(tier, seed):
     n = 60000 if tier == "quick" else 6000000
     for k in range(n):
-        yield {"gen": ("msprime" if k % 40 == 7 else "align" if k % 3 == 2 else "walk"), "k": k}
+        yield {"gen": case_kind(k), "k": k}
 
 
 # ------------------------------------------------------------------------------------ reference
 
 
 class GenoRef:
-    """Per (site, node) allele and missing flag, straight from the row model."""
+    """Per (site, node) allele and missing flag, straight from the row model.
 
-    def __init__(self, m):
+    Small models: lib.model.allele_at / is_missing (walk up from every node).  Large models (`fast=True`):
+    c03_gen.fast_site_states (one top-down pass per site, written from the same definition).  `selfcheck` evaluates
+    both and raises (harness error, never a verdict) if the two references disagree."""
+
+    def __init__(self, m, fast=False, selfcheck=False):
         self.m = m
         n = m.num_nodes
         self.n = n
         self.samples = m.samples()
         self.sample_set = set(self.samples)
         self.sites = []
+        by_site = collections.defaultdict(list)
+        for mu in m.mutations:
+            by_site[mu[0]].append(mu[2])
         for j, (pos, anc, _) in enumerate(m.sites):
-            fr = forest(m, pos)
-            ks = m.site_mutations(j)
-            states = [anc] + [m.mutations[k][2] for k in ks]
+            states = [anc] + by_site.get(j, [])
+            if fast:
+                allele, missing = c03_gen.fast_site_states(m, j)
+            else:
+                fr = forest(m, pos)
+                allele = [allele_at(m, fr, j, u) for u in range(n)]
+                missing = [is_missing(m, fr, j, u) for u in range(n)]
+                if selfcheck and (allele, missing) != c03_gen.fast_site_states(m, j):
+                    raise AssertionError(f"the two reference evaluations disagree at site {j}")
             self.sites.append({
                 "pos": pos,
                 "anc": anc,
                 "states": set(states),
-                "allele": [allele_at(m, fr, j, u) for u in range(n)],
-                "missing": [is_missing(m, fr, j, u) for u in range(n)],
+                "allele": allele,
+                "missing": missing,
             })
-        bps = m.breakpoints()
-        self.isolated_any = False
-        for a, b in zip(bps, bps[1:]):
-            fr = forest(m, (a + b) / 2)
-            if any(fr.is_isolated(u) for u in self.samples):
-                self.isolated_any = True
-                break
+        if fast:
+            self.isolated_any = c03_gen.any_isolated_sample(m)
+        else:
+            bps = m.breakpoints()
+            self.isolated_any = False
+            for a, b in zip(bps, bps[1:]):
+                fr = forest(m, (a + b) / 2)
+                if any(fr.is_isolated(u) for u in self.samples):
+                    self.isolated_any = True
+                    break
         coords = [m.L] + [s[0] for s in m.sites]
         for e in m.edges:
             coords += [e[0], e[1]]
@@ -101,21 +162,37 @@ class GenoRef:
 
 def model_features(m, R):
     tags = set()
+    L = m.L
+    bps = set(m.breakpoints()) - {0.0, L}
     for j, s in enumerate(R.sites):
-        fr = forest(m, s["pos"])
-        if not fr.parent:
+        parent = m.forest_at(s["pos"])
+        has_child = set(parent.values())
+        if not parent:
             tags.add("site-in-gap")
+        pos = s["pos"]
+        if pos == 0:
+            tags.add("site-at-0")
+        if pos == L / 2:
+            tags.add("site-at-exactly-half-L")
+        if pos in bps:
+            tags.add("site-on-breakpoint")
+        if any(pos < b and (pos + 1 == b or math.nextafter(pos, L) == b) for b in bps):
+            tags.add("site-just-before-breakpoint")
+        if pos + 1 == L or math.nextafter(pos, 2 * L) == L:
+            tags.add("site-at-last-position")
         ks = m.site_mutations(j)
         if not ks:
             tags.add("site-without-mutation")
         seen = collections.Counter()
+        on_isolated = collections.Counter()
         for k in ks:
             _, u, d, p, _, _ = m.mutations[k]
             seen[d] += 1
-            if fr.par(u) == NULL:
+            if u not in parent:
                 tags.add("mutation-above-root")
-            if m.is_sample(u) and fr.is_isolated(u):
+            if m.is_sample(u) and u not in parent and u not in has_child:
                 tags.add("mutation-on-isolated-sample")
+                on_isolated[u] += 1
             prev = m.mutations[p][2] if p != NULL else s["anc"]
             if prev == d:
                 tags.add("silent-mutation")
@@ -123,14 +200,59 @@ def model_features(m, R):
                 tags.add("back-mutation")
             if p != NULL and m.mutations[p][1] == u:
                 tags.add("several-mutations-one-branch")
+        if any(c > 1 for c in on_isolated.values()):
+            tags.add("several-mutations-on-one-isolated-sample")
         if any(c > 1 for c in seen.values()):
             tags.add("recurrent-mutation")
         if any(len(a) > 1 for a in s["states"]):
             tags.add("multi-char-allele")
         if "" in s["states"]:
             tags.add("empty-allele")
+        for lim in (4, 8, 16, 32, 64, 128, 256):
+            if len(s["states"]) > lim:
+                tags.add(f"states-at-one-site>{lim}")
+            elif len(s["states"]) == lim:
+                tags.add(f"states-at-one-site=={lim}")
+        for lim in (256, 65536):
+            if any(len(a) >= lim for a in s["states"]):
+                tags.add(f"allele-length>={lim}")
         if any(s["missing"][u] for u in R.samples):
             tags.add("site-with-missing-data")
+        elif on_isolated:
+            # isolated samples exist at the site but each of them carries a mutation: nothing is missing
+            tags.add("site-all-isolated-samples-rescued-by-mutations")
+    return tags
+
+
+def big_features(m):
+    """Structure tags of a large instance (gen.topo_tags is quadratic in the number of samples)."""
+    tags = set(m.tags)
+    fan = collections.Counter()
+    bps = m.breakpoints()
+    depth_max = 0
+    roots_max = 0
+    for a, b in zip(bps, bps[1:]):
+        parent = m.forest_at((a + b) / 2)
+        fan = collections.Counter(parent.values())
+        depth = {}
+        for u in sorted(range(m.num_nodes), key=lambda v: -m.nodes[v][1]):
+            depth[u] = depth[parent[u]] + 1 if u in parent else 0
+        depth_max = max(depth_max, max(depth.values()))
+        roots_max = max(roots_max, sum(1 for u in m.samples() if u not in parent))
+        if fan and max(fan.values()) >= 255:
+            tags.add("fanout>=255")
+        if fan and max(fan.values()) >= 256:
+            tags.add("fanout>=256")
+    if depth_max >= 255:
+        tags.add("depth>=255")
+    if depth_max >= 1000:
+        tags.add("depth>=1000")
+    if roots_max >= 256:
+        tags.add("sample-roots>=256")
+    if len(m.samples()) >= 256:
+        tags.add("samples>=256")
+    if len(m.samples()) >= 32768:
+        tags.add("samples>=32768")
     return tags
 
 
@@ -185,6 +307,10 @@ def build(case):
     rng = case_rng(case)
     if case["gen"] == "msprime":
         return rng, build_msprime(rng)
+    if case["gen"] == "edge":
+        return rng, c03_gen.build_edge(rng)
+    if case["gen"] == "big":
+        return rng, c03_gen.build_big(rng, allow_huge=case.get("tier") == "thorough")
     if case["gen"] == "align":
         L = rng.choice([2.0, 4.0, 8.0, 10.0, 16.0])
         m = gen.gen_topology(rng, n=rng.randint(2, 9), max_bp=4, L=L, discrete=True, gaps=False,
@@ -236,13 +362,42 @@ def build(case):
 # ------------------------------------------------------------------------------------ helpers
 
 
+# The deprecated impute_missing_data argument warns on every call; the worker process is ours, so the filter is set
+# once instead of in a context manager around each of the ~100 calls per case.
+warnings.simplefilter("ignore")
+
+
 def attempt(fn):
     try:
-        with warnings.catch_warnings():
-            warnings.simplefilter("ignore")
-            return True, fn()
+        return True, fn()
     except Exception as e:  # noqa: BLE001 - deciding explicitly below
         return False, e
+
+
+class Lazy:
+    """A call description that is only rendered (numpy reprs!) when a violation message needs it."""
+
+    def __init__(self, name, kw):
+        self.name = name
+        self.kw = kw
+
+    def __str__(self):
+        return f"{self.name}({self.kw})"
+
+    def __format__(self, spec):
+        return str(self)
+
+
+class LazyF(Lazy):
+    def __init__(self, fmt, *args):
+        self.fmt = fmt
+        self.args = args
+
+    def __str__(self):
+        return self.fmt.format(*self.args)
+
+    def __add__(self, other):
+        return LazyF("{}{}", self, other)
 
 
 def exc_name(e):
@@ -257,6 +412,12 @@ class Mon:
         self.m = m
         self.R = R
         self._detail = None
+        self.force = None  # "default" | "all-nodes": consumed by the next new_request()
+        self._tick = 0
+
+    def tick(self):
+        self._tick += 1
+        return self._tick
 
     def bad(self, key, msg):
         if self._detail is None:
@@ -280,6 +441,13 @@ class Mon:
         if may:
             self.ctx.count(f"{api}:either-zone-result")
         return True
+
+
+# ids that must be refused and must never wrap around into a valid node: 2^31-1, 2^31, 2^32 + u, -2^31, -2^32 + u
+def far_out_of_bounds(rng, n):
+    u = rng.randrange(n)
+    return rng.choice([2 ** 31 - 1, 2 ** 31, 2 ** 31 + u, 2 ** 32 + u, 2 ** 32 - 1, -2 ** 31, -2 ** 31 - 1,
+                       -2 ** 32 + u, 2 ** 63 - 1])
 
 
 def pick_samples(rng, m, prefer_samples=False):
@@ -306,21 +474,63 @@ def pick_samples(rng, m, prefer_samples=False):
         S.insert(rng.randint(0, len(S)), rng.choice(S))
         return "duplicate", S
     S = rng.sample(range(n), rng.randint(0, min(n, 2)))
+    if rng.random() < 0.4:
+        S.insert(rng.randint(0, len(S)), far_out_of_bounds(rng, n))
+        return "out-of-bounds-far", S
     S.insert(rng.randint(0, len(S)), rng.choice([-1, -2, n, n + 3]))
     return "out-of-bounds", S
 
 
-def samples_form(rng, S):
+def samples_form(rng, S, ctx=None):
+    """The same node list in one of the argument forms an `array_like` may take."""
     if S is None:
         return None
-    r = rng.random()
-    if r < 0.4:
+    lo, hi = (min(S), max(S)) if S else (0, 0)
+    forms = ["list", "list", "tuple", "int32", "int32", "int64"]
+    if -2 ** 31 <= lo and hi < 2 ** 31:
+        forms += ["strided-int32", "readonly-int32"]
+    if -2 ** 63 <= lo and hi < 2 ** 63:
+        forms += ["strided-int64"]
+    else:
+        forms = ["list", "tuple"]
+    if -128 <= lo and hi < 128:
+        forms.append("int8")
+    if -2 ** 15 <= lo and hi < 2 ** 15:
+        forms.append("int16")
+    if lo >= 0 and S:
+        if hi < 256:
+            forms.append("uint8")
+        if hi < 2 ** 32:
+            forms.append("uint32")
+        if hi < 2 ** 64:
+            forms.append("uint64")
+    if S and list(S) == list(range(S[0], S[0] + len(S))):
+        forms += ["range", "range"]
+    if not S:
+        forms += ["empty-float64", "empty-float64"]
+    if not (-2 ** 31 <= lo and hi < 2 ** 31):
+        forms = [f for f in forms if f not in ("int32", "int8", "int16")]
+    f = rng.choice(forms)
+    if ctx is not None:
+        ctx.feature(f"samples-as:{f}")
+    if f == "list":
         return list(S)
-    if r < 0.55:
+    if f == "tuple":
         return tuple(S)
-    if r < 0.8:
-        return np.array(S, dtype=np.int32)
-    return np.array(S, dtype=np.int64)
+    if f == "range":
+        return range(S[0], S[0] + len(S))
+    if f == "empty-float64":
+        return np.array([])
+    if f in ("strided-int32", "strided-int64"):
+        dt = np.int32 if f == "strided-int32" else np.int64
+        a = np.full(2 * len(S) + 1, 123456789, dtype=dt)  # poison between the elements
+        a[1::2] = S
+        return a[1::2]
+    if f == "readonly-int32":
+        a = np.array(S, dtype=np.int32)
+        a.flags.writeable = False
+        return a
+    return np.array(S, dtype=getattr(np, f))
 
 
 def pick_iam(rng):
@@ -364,6 +574,8 @@ def pick_user_alleles(rng, R, p_none=0.5):
         rng.shuffle(ua)
         return "missing-one", tuple(ua)
     if r < 0.9:
+        if set(states) <= {"0", "1"} and rng.random() < 0.7:
+            return "01-constant", tskit.ALLELES_01
         return "ACGT-constant", tskit.ALLELES_ACGT
     return "empty-tuple", ()
 
@@ -445,19 +657,31 @@ def pick_interval(rng, R, integer=False):
     hi = kw.get("right", L)
     if lo >= hi or lo >= L or hi <= 0:
         return kw, lo, hi, "may"
-    if rng.random() < 0.3:
+    r = rng.random()
+    if r < 0.3:
         # integers given as Python ints when integral
         kw = {k: (int(v) if float(v).is_integer() else v) for k, v in kw.items()}
+    elif r < 0.45:
+        # numpy scalars (what positions read from ts.sites_position / ts.breakpoints(as_array=True) are)
+        def np_form(v):
+            if float(v).is_integer() and rng.random() < 0.5:
+                return rng.choice([np.int64, np.int32, np.uint32])(int(v))
+            return np.float32(v) if (float(np.float32(v)) == v and rng.random() < 0.3) else np.float64(v)
+        kw = {k: np_form(v) for k, v in kw.items()}
+    elif r < 0.5 and kw.get("left") == 0:
+        kw["left"] = -0.0
     return kw, lo, hi, "ok"
 
 
 # ------------------------------------------------------------------------------------ Variant oracle
 
 
-def read_variant(v):
+def read_variant(v, full=True):
+    """Snapshot of the public attributes.  `Variant.site` / `Variant.position` build a Site object with all its Mutation
+    objects on every access (the dominant cost with 65 mutations at a site): they are read on a third of the calls,
+    `Variant.index` (the same id) always."""
     g = v.genotypes
-    return {
-        "site": v.site.id,
+    d = {
         "alleles": tuple(v.alleles),
         "g": np.array(g),
         "dtype": str(g.dtype),
@@ -467,23 +691,30 @@ def read_variant(v):
         "num_alleles": int(v.num_alleles),
         "iam": bool(v.isolated_as_missing),
         "index": v.index,
-        "position": v.position,
     }
+    if full:
+        site = v.site
+        d["site"] = site.id
+        d["position"] = v.position if d["index"] % 2 else site.position
+    else:
+        d["site"] = d["index"]
+        d["position"] = None
+    return d
 
 
 def check_variant(mon, v, j, S, iam, UA, api, how, deep_rng=None):
     """Compare one decoded Variant with the reference.  Returns the snapshot (or None)."""
     R = mon.R
     ctx = mon.ctx
-    ok, d = attempt(lambda: read_variant(v))
+    ok, d = attempt(lambda: read_variant(v, full=mon.tick() % 3 == 0))
     ctx.count(f"{api}:variant-checked")
     if not ok:
         mon.bad(f"{api}/accessor-raised/{exc_name(d)}", f"{how}: reading the decoded variant at site {j} raised {d!r}")
         return None
     s = R.sites[j]
     al, mi = R.expected(j, S, iam)
-    w = f"{how} site={j} nodes={S} isolated_as_missing={iam} alleles={UA}"
-    if d["site"] != j or d["index"] != j or d["position"] != s["pos"]:
+    w = LazyF("{} site={} nodes={} isolated_as_missing={} alleles={}", how, j, S, iam, UA)
+    if d["site"] != j or d["index"] != j or (d["position"] is not None and d["position"] != s["pos"]):
         mon.bad(f"{api}/site-id", f"{w}: variant.site.id={d['site']} index={d['index']} position={d['position']}")
         return d
     if d["samples"] != list(S):
@@ -510,6 +741,9 @@ def check_variant(mon, v, j, S, iam, UA, api, how, deep_rng=None):
     else:
         if tuple(real) != tuple(UA):
             mon.bad(f"{api}/user-alleles-changed", f"{w}: alleles={alleles}")
+    first_index = {}
+    for i, a in enumerate(UA or ()):
+        first_index.setdefault(a, i)
     for k, u in enumerate(S):
         gk = int(g[k])
         if mi[k]:
@@ -529,9 +763,9 @@ def check_variant(mon, v, j, S, iam, UA, api, how, deep_rng=None):
                     f"nearest-mutation rule gives {al[k]!r}; all genotypes={g.tolist()} expected alleles={al} "
                     f"missing={mi}")
             break
-        if UA is not None and gk != UA.index(al[k]):
+        if UA is not None and gk != first_index.get(al[k]):
             mon.bad(f"{api}/user-alleles-index", f"{w}: node {u} genotype={gk}, first occurrence of {al[k]!r} in "
-                    f"{UA} is {UA.index(al[k])}")
+                    f"{UA} is {first_index.get(al[k])}")
             break
     if d["has_missing"] != any_missing:
         mon.bad(f"{api}/has_missing_data", f"{w}: has_missing_data={d['has_missing']} expected {any_missing}")
@@ -541,7 +775,8 @@ def check_variant(mon, v, j, S, iam, UA, api, how, deep_rng=None):
         mon.bad(f"{api}/num_alleles", f"{w}: num_alleles={d['num_alleles']} alleles={alleles}")
     if d["iam"] != bool(iam):
         mon.bad(f"{api}/isolated_as_missing-attr", f"{w}: variant.isolated_as_missing={d['iam']}")
-    if deep_rng is not None:
+    if deep_rng is not None and len(S) * max((len(a) for a in real), default=0) <= 200000:
+        # (states() materialises len(S) fixed-width strings of the longest allele)
         check_variant_stats(mon, v, d, al, mi, UA, api, w, deep_rng)
     return d
 
@@ -566,12 +801,14 @@ def check_variant_stats(mon, v, d, al, mi, UA, api, w, rng):
     else:
         got = {k: int(x) for k, x in c.items()}
         if got != dict(exp):
-            if dup:
-                # EITHER: with a user allele tuple containing duplicates the dict returned by counts() keeps only the last
-                # duplicate's count. The property statement does not speak about counts(), so this is recorded, not gated.
+            # E8: with a user allele tuple containing duplicates the mapping returned by counts() keeps the count of
+            # the LAST occurrence (zero, genotypes use the first).  Only the duplicated strings are open.
+            open_keys = {a for a in real if real.count(a) > 1} if dup else set()
+            if set(got) == set(exp) and all(got[a] == exp[a] for a in exp if a not in open_keys):
                 ctx.count("either:counts-with-duplicate-user-alleles")
             else:
-                mon.bad(f"{api}/counts", f"{w}: counts()={got} expected {dict(exp)} (genotypes {d['g'].tolist()}, alleles {alleles})")
+                mon.bad(f"{api}/counts", f"{w}: counts()={got} expected {dict(exp)} (genotypes {d['g'].tolist()}, "
+                        f"alleles {alleles}; entries of duplicated strings {sorted(open_keys)} are not compared)")
     # ---- frequencies
     rm = rng.choice([None, False, True])
     ok, f = attempt(lambda: v.frequencies() if rm is None else v.frequencies(remove_missing=rm))
@@ -588,10 +825,14 @@ def check_variant_stats(mon, v, d, al, mi, UA, api, w, rng):
         same = set(f) == set(expf) and all(
             (math.isnan(expf[a]) and math.isnan(float(f[a]))) or abs(float(f[a]) - expf[a]) <= 1e-12 for a in expf)
         if not same:
-            if dup:
+            open_keys = {a for a in real if real.count(a) > 1} if dup else set()
+            if set(f) == set(expf) and all(
+                    (math.isnan(expf[a]) and math.isnan(float(f[a]))) or abs(float(f[a]) - expf[a]) <= 1e-12
+                    for a in expf if a not in open_keys):
                 ctx.count("either:counts-with-duplicate-user-alleles")
             else:
-                mon.bad(f"{api}/frequencies", f"{w}: frequencies(remove_missing={rm})={dict(f)} expected {expf}")
+                mon.bad(f"{api}/frequencies", f"{w}: frequencies(remove_missing={rm})={dict(f)} expected {expf} "
+                        f"(entries of duplicated strings {sorted(open_keys)} are not compared)")
     # ---- states
     mds = rng.choice([None, None, "N", "?", "missing", "", "A", "T", 5])
     ok, st = attempt(lambda: v.states() if mds is None else v.states(missing_data_string=mds))
@@ -626,6 +867,12 @@ def new_request(rng, mon, p_ua=0.5):
     R = mon.R
     kind, S = pick_samples(rng, R.m)
     iam_kw, iam = pick_iam(rng)
+    if mon.force == "default":
+        kind, S = "default", None
+    elif mon.force == "all-nodes":
+        kind, S = "all-nodes-permuted", rng.sample(range(R.n), R.n)
+        iam_kw, iam = {"isolated_as_missing": False}, False
+    mon.force = None
     if S is not None and iam and any(u not in R.sample_set for u in S) and rng.random() < 0.75:
         iam_kw, iam = rng.choice([({"isolated_as_missing": False}, False), ({"impute_missing_data": True}, False)])
     ua_kind, UA = pick_user_alleles(rng, R, p_none=1 - p_ua)
@@ -638,7 +885,7 @@ def new_request(rng, mon, p_ua=0.5):
         must.add("empty-allele-tuple")
     kw = dict(iam_kw)
     if S is not None:
-        kw["samples"] = samples_form(rng, S)
+        kw["samples"] = samples_form(rng, S, mon.ctx)
     if UA is not None:
         kw["alleles"] = UA
     return {"kw": kw, "S": S, "nodes": nodes, "iam": iam, "UA": UA, "must": must}
@@ -652,7 +899,7 @@ def mon_variants(rng, mon, ts):
     cp = rng.choice([None, None, True, False])
     if cp is not None:
         kw["copy"] = cp
-    call = f"variants({kw})"
+    call = Lazy("variants", kw)
     must = set(rq["must"])
     may = set()
     if istat == "must":
@@ -715,13 +962,44 @@ def mon_variants(rng, mon, ts):
     ctx.count("variants:iterations-completed")
     # copies handed out earlier must not have changed while later sites were decoded
     for v, d, j in kept:
-        ok, d2 = attempt(lambda: read_variant(v))
+        ok, d2 = attempt(lambda: read_variant(v, full=False))
         ctx.count("variants:frozen-copy")
         if not ok or not same_snapshot(d, d2):
             mon.bad("variants/copy-not-frozen", f"{call}: variant yielded for site {j} changed afterwards: "
                     f"{d if ok else None} -> {d2!r}")
             break
     return
+
+
+def make_variant(rng, ctx, ts, pkw):
+    """tskit.Variant(ts, ...) by keyword or (documented parameter order) positionally."""
+    if rng.random() < 0.6:
+        ctx.feature("Variant-ctor:keyword")
+        return tskit.Variant(ts, **pkw)
+    order = ["samples", "isolated_as_missing", "alleles"]
+    last = max([i for i, k in enumerate(order) if k in pkw], default=-1)
+    npos = rng.randint(0, last + 1)
+    args = [pkw.get(k) for k in order[:npos]]
+    rest = {k: pkw[k] for k in order[npos:] if k in pkw}
+    ctx.feature("Variant-ctor:positional")
+    return tskit.Variant(ts, *args, **rest)
+
+
+def do_decode(rng, ctx, v, j):
+    r = rng.random()
+    if r < 0.6:
+        return v.decode(j)
+    if r < 0.75:
+        ctx.feature("decode-arg:keyword")
+        return v.decode(site_id=j)
+    ctx.feature("decode-arg:numpy-int")
+    return v.decode(rng.choice([np.int32, np.int64, np.uint32, np.uint8 if j < 256 else np.int64])(j))
+
+
+def bad_site_id(rng, num_sites):
+    j = rng.randrange(num_sites) if num_sites else 0
+    return rng.choice([-1, num_sites, num_sites + 7, -5, -1, num_sites, 2 ** 31 - 1, 2 ** 31, 2 ** 32 + j,
+                       -2 ** 32 + j, 2 ** 63 - 1])
 
 
 def decode_order(rng, num_sites):
@@ -763,9 +1041,9 @@ def mon_decode(rng, mon, ts):
         pkw = {k: v for k, v in rq["kw"].items() if k != "impute_missing_data"}
         if "impute_missing_data" in rq["kw"] and "isolated_as_missing" not in rq["kw"]:
             pkw["isolated_as_missing"] = rq["iam"]
-        call = f"Variant({pkw})"
+        call = Lazy("Variant", pkw)
         ctx.count("decode:constructed")
-        ok, v = attempt(lambda: tskit.Variant(ts, **pkw))
+        ok, v = attempt(lambda: make_variant(rng, ctx, ts, pkw))
         if not mon.decide("decode", ok, v, rq["must"], set(), call):
             continue
         # before the first decode the variant has no site and no genotypes
@@ -787,7 +1065,7 @@ def mon_decode(rng, mon, ts):
         v, rq, call = x["v"], x["rq"], x["call"]
         if rng.random() < 0.08:
             # an invalid site id must raise and must not disturb later decodes (E6)
-            jbad = rng.choice([-1, len(R.sites), len(R.sites) + 7, -5])
+            jbad = bad_site_id(rng, len(R.sites))
             ok, r = attempt(lambda: v.decode(jbad))
             ctx.count("decode:error-predicted")
             x["hist"].append(("bad", jbad))
@@ -799,9 +1077,9 @@ def mon_decode(rng, mon, ts):
         if not x["order"]:
             live = [y for y in live if y is not x]
         x["hist"].append(j)
-        how = f"{call} decode history {x['hist'][-8:]}"
+        how = LazyF("{} decode history {}", call, x["hist"][-8:])
         st = site_allele_status(R, j, rq["nodes"], rq["iam"], rq["UA"])
-        ok, r = attempt(lambda: v.decode(j))
+        ok, r = attempt(lambda: do_decode(rng, ctx, v, j))
         ctx.count("decode:calls")
         if st == "must":
             ctx.count("decode:error-predicted")
@@ -825,12 +1103,13 @@ def mon_decode(rng, mon, ts):
             if not ok:
                 mon.bad(f"decode/copy-raised/{exc_name(c)}", f"{how}: copy() raised {c!r}")
             else:
-                dc = check_variant(mon, c, j, rq["nodes"], rq["iam"], rq["UA"], "copy", how + " copy()")
+                dc = check_variant(mon, c, j, rq["nodes"], rq["iam"], rq["UA"], "copy", how + " copy()",
+                                   deep_rng=rng if rng.random() < 0.15 else None)
                 if dc is not None:
                     x["copies"].append((c, dc, j))
     for x in vs:
         for c, dc, j in x["copies"]:
-            ok, d2 = attempt(lambda: read_variant(c))
+            ok, d2 = attempt(lambda: read_variant(c, full=False))
             ctx.count("decode:frozen-copy")
             if not ok or not same_snapshot(dc, d2):
                 mon.bad("copy/not-frozen", f"{x['call']} history {x['hist']}: copy() taken at site {j} changed: "
@@ -844,10 +1123,53 @@ def mon_decode(rng, mon, ts):
                 mon.bad("copy/decode-not-refused", f"{x['call']}: decode() on a copy() returned normally")
 
 
+def mon_fresh(rng, mon, ts):
+    """A NEW Variant for every site: its first decode() positions the internal tree from the null state
+    (tsk_tree_seek_from_null builds the tree from the left for x <= L/2 and from the right otherwise), directly
+    at a tree anywhere in the sequence - the decode histories above reach most sites by stepping."""
+    R, ctx = mon.R, mon.ctx
+    if not R.sites:
+        return
+    rq = new_request(rng, mon, p_ua=0.25)
+    if rq["must"]:
+        rq = {"kw": {}, "S": None, "nodes": list(R.samples), "iam": True, "UA": None, "must": set()}
+    pkw = {k: v for k, v in rq["kw"].items() if k != "impute_missing_data"}
+    if "impute_missing_data" in rq["kw"] and "isolated_as_missing" not in rq["kw"]:
+        pkw["isolated_as_missing"] = rq["iam"]
+    ids = list(range(len(R.sites)))
+    if len(ids) > 8:
+        ids = sorted(rng.sample(ids, 8))
+    half = R.m.L / 2
+    for j in ids:
+        call = Lazy(f"first decode({j}) of Variant", pkw)
+        ok, v = attempt(lambda: make_variant(rng, ctx, ts, pkw))
+        if not ok:
+            mon.bad(f"fresh/unexpected-error/{exc_name(v)}", f"{call}: constructor raised {v!r}")
+            return
+        st = site_allele_status(R, j, rq["nodes"], rq["iam"], rq["UA"])
+        ok, r = attempt(lambda: do_decode(rng, ctx, v, j))
+        ctx.count("fresh:calls")
+        pos = R.sites[j]["pos"]
+        ctx.feature("first-decode:" + ("exactly-half-L" if pos == half else "left-half" if pos < half else "right-half"))
+        if st == "must":
+            ctx.count("fresh:error-predicted")
+            if ok:
+                mon.bad("fresh/error-not-raised/allele-not-in-user-list", f"{call}: decoded although a carried "
+                        f"allele is not in {rq['UA']}: alleles={v.alleles}")
+            continue
+        if not ok:
+            if st == "may":
+                ctx.count("fresh:either-zone-error")
+                continue
+            mon.bad(f"fresh/unexpected-error/{exc_name(r)}", f"{call}: raised {r!r}")
+            continue
+        check_variant(mon, v, j, rq["nodes"], rq["iam"], rq["UA"], "fresh", call)
+
+
 def mon_genotype_matrix(rng, mon, ts, variants_rows):
     R, ctx = mon.R, mon.ctx
     rq = new_request(rng, mon, p_ua=0.4)
-    call = f"genotype_matrix({rq['kw']})"
+    call = Lazy("genotype_matrix", rq["kw"])
     must = set(rq["must"])
     may = set()
     for j in range(len(R.sites) if not must else 0):
@@ -866,24 +1188,27 @@ def mon_genotype_matrix(rng, mon, ts, variants_rows):
                 f"expected ({len(R.sites)}, {len(S)}) int32")
         return
     UA = rq["UA"]
+    first_index = {}
+    for i, a in enumerate(UA or ()):
+        first_index.setdefault(a, i)
     for j in range(len(R.sites)):
         al, mi = R.expected(j, S, rq["iam"])
         row = [int(x) for x in G[j]]
         ctx.count("genotype_matrix:rows")
         anc = R.sites[j]["anc"]
         okrow = True
+        g2a, a2g = {}, {}
         for k in range(len(S)):
             if mi[k] != (row[k] == -1):
                 okrow = False
             elif not mi[k]:
                 if UA is not None:
-                    okrow = okrow and row[k] == UA.index(al[k])
+                    okrow = okrow and row[k] == first_index.get(al[k])
                 else:
-                    # only index 0 (ancestral) and the equality pattern are fixed without the allele list
+                    # only index 0 (ancestral) and the equality pattern are fixed without the allele list:
+                    # genotype value <-> allele string must be one-to-one within the row
                     okrow = okrow and (row[k] == 0) == (al[k] == anc) and row[k] >= 0
-                    for k2 in range(k):
-                        if not mi[k2] and (row[k] == row[k2]) != (al[k] == al[k2]):
-                            okrow = False
+                    okrow = okrow and g2a.setdefault(row[k], al[k]) == al[k] and a2g.setdefault(al[k], row[k]) == row[k]
         if not okrow:
             mon.bad("genotype_matrix/row", f"{call}: row {j} = {row}, reference alleles {al} missing {mi} "
                     f"ancestral {anc!r}")
@@ -936,7 +1261,7 @@ def mon_haplotypes(rng, mon, ts):
     if mdc is not None:
         kw["missing_data_character"] = mdc
     eff = "N" if mdc is None else mdc
-    call = f"haplotypes({kw})"
+    call = Lazy("haplotypes", kw)
     must = set(rq["must"])
     may = set()
     if istat == "must":
@@ -1012,8 +1337,8 @@ def alignment_strings(R, S, inside, lo, base):
     return out
 
 
-def alignment_expectation(rng, mon, with_samples=True, with_interval=True):
-    """Draw arguments for alignments()/as_fasta and predict the outcome."""
+def alignment_expectation(rng, mon, with_samples=True, with_interval=True, default_mdc="N"):
+    """Draw arguments for alignments()/write_fasta/write_nexus and predict the outcome."""
     R = mon.R
     m = R.m
     kw = {}
@@ -1023,13 +1348,13 @@ def alignment_expectation(rng, mon, with_samples=True, with_interval=True):
         kind, S = pick_samples(rng, m, prefer_samples=True)
         mon.ctx.feature(f"samples:{kind}")
         if S is not None:
-            kw["samples"] = samples_form(rng, S)
+            kw["samples"] = samples_form(rng, S, mon.ctx)
         must |= ctor_errors(R, S, True)  # alignments has no isolated_as_missing argument: default True
     nodes = list(R.samples) if S is None else list(S)
     mdc = rng.choice([None] * 8 + ["N", "N", "-", "-", "?", "*", "A", "n", "T", "NN", "é"])
     if mdc is not None:
         kw["missing_data_character"] = mdc
-    eff = "N" if mdc is None else mdc
+    eff = default_mdc if mdc is None else mdc
     if not R.discrete:
         must.add("non-discrete-genome")
         if with_interval and rng.random() < 0.5:
@@ -1067,7 +1392,8 @@ def alignment_expectation(rng, mon, with_samples=True, with_interval=True):
         must.add("isolated-samples-present")
     if not valid_iv:
         return kw, must, may, nodes, None, None, None
-    m2, y2, bases = expect_alignment_ref(R, None, ref_arg, lo, hi, eff if len(eff) == 1 and eff.isascii() else "N")
+    m2, y2, bases = expect_alignment_ref(R, None, ref_arg, lo, hi,
+                                         eff if len(eff) == 1 and eff.isascii() else default_mdc)
     must |= m2
     may |= y2
     inside = R.sites_in(lo, hi)
@@ -1080,7 +1406,7 @@ def alignment_expectation(rng, mon, with_samples=True, with_interval=True):
 def mon_alignments(rng, mon, ts):
     R, ctx = mon.R, mon.ctx
     kw, must, may, nodes, inside, lo, bases = alignment_expectation(rng, mon)
-    call = f"alignments({kw})"
+    call = Lazy("alignments", kw)
     ok, A = attempt(lambda: list(ts.alignments(**kw)))
     ctx.count("alignments:calls")
     if not mon.decide("alignments", ok, A, must, may, call):
@@ -1092,6 +1418,35 @@ def mon_alignments(rng, mon, ts):
     if not any(A == c for c in cands.values()):
         mon.bad("alignments/strings", f"{call}: got {A} expected one of {cands} (embedded reference "
                 f"{R.m.refseq}, sites {[(s['pos'], s['anc']) for s in R.sites]})")
+
+
+def text_output(fn, form, kw):
+    """Run a write_xxx(file_or_path, **kw) method through one of the documented destinations and return the text
+    ("The file object or path to write the output. Paths can be either strings or pathlib.Path objects")."""
+    if form in ("as_fasta", "as_nexus"):
+        return fn(**kw)
+    if form == "StringIO":
+        buf = io.StringIO()
+        fn(buf, **kw)
+        return buf.getvalue()
+    with tempfile.TemporaryDirectory(prefix="c03-") as d:
+        path = os.path.join(d, "out.txt")
+        if form == "path-str":
+            fn(path, **kw)
+        elif form == "pathlib":
+            fn(pathlib.Path(path), **kw)
+        else:
+            with open(path, "w") as f:
+                f.write("HEAD\n")  # an open file is written from its current position and left open
+                fn(f, **kw)
+                f.write("TAIL\n")
+            with open(path) as f:
+                text = f.read()
+            if not (text.startswith("HEAD\n") and text.endswith("TAIL\n")):
+                raise AssertionError("the harness's own marker lines were lost")
+            return text[5:-5]
+        with open(path) as f:
+            return f.read()
 
 
 def mon_fasta(rng, mon, ts):
@@ -1108,8 +1463,10 @@ def mon_fasta(rng, mon, ts):
         # returning an empty file are both accepted
         may |= must
         must = set()
-    call = f"as_fasta({kw})"
-    ok, text = attempt(lambda: ts.as_fasta(**kw))
+    form = rng.choice(["as_fasta", "as_fasta", "path-str", "pathlib", "open-file", "StringIO"])
+    ctx.feature(f"fasta-output:{form}")
+    call = Lazy(f"write_fasta[{form}]", kw)
+    ok, text = attempt(lambda: text_output(ts.as_fasta if form == "as_fasta" else ts.write_fasta, form, kw))
     ctx.count("as_fasta:calls")
     if not mon.decide("as_fasta", ok, text, must, may, call):
         return
@@ -1145,11 +1502,107 @@ def mon_fasta(rng, mon, ts):
             return
 
 
+def mon_nexus(rng, mon, ts):
+    """DATA block of write_nexus / as_nexus: "sequence alignment data will also be included by default" when the genome
+    is discrete and there is a site; rows `n<u> <alignment>`; the missing character defaults to "?" here.
+    include_trees=False throughout (the TREES block is C18's; multi-root trees raise there)."""
+    R, ctx = mon.R, mon.ctx
+    kw, must, may, nodes, inside, lo, bases = alignment_expectation(rng, mon, with_samples=False,
+                                                                    with_interval=False, default_mdc="?")
+    ia = rng.choice([None, None, True, True, False])
+    kw["include_trees"] = False
+    if ia is not None:
+        kw["include_alignments"] = ia
+    included = ia if ia is not None else (R.discrete and len(R.sites) > 0)
+    if not included:
+        must, may, bases = set(), set(), None
+    if not nodes:
+        may |= must  # as for write_fasta: nothing is ever drawn from alignments() without samples
+        must = set()
+    form = rng.choice(["as_nexus", "as_nexus", "path-str", "pathlib", "open-file", "StringIO"])
+    ctx.feature(f"nexus-output:{form}")
+    call = Lazy(f"write_nexus[{form}]", kw)
+    ok, text = attempt(lambda: text_output(ts.as_nexus if form == "as_nexus" else ts.write_nexus, form, kw))
+    ctx.count("nexus:calls")
+    if not mon.decide("nexus", ok, text, must, may, call):
+        return
+    lines = [ln.strip() for ln in text.split("\n")]
+    ctx.count("nexus:compared")
+    exp_tax = " ".join(f"n{u}" for u in R.samples)
+    if (not lines or lines[0] != "#NEXUS" or f"DIMENSIONS NTAX={len(R.samples)};" not in lines
+            or f"TAXLABELS {exp_tax};" not in lines or "BEGIN TREES;" in lines):
+        mon.bad("nexus/taxa-block", f"{call}: {text[:400]!r}; expected taxa {exp_tax!r} and no TREES block")
+        return
+    has_data = "BEGIN DATA;" in lines
+    if has_data != bool(included):
+        mon.bad("nexus/data-block-presence", f"{call}: DATA block present={has_data}, expected {bool(included)} "
+                f"(discrete genome {R.discrete}, {len(R.sites)} sites)")
+        return
+    if not included or bases is None:
+        return
+    i0 = lines.index("BEGIN DATA;")
+    i1 = lines.index("END;", i0)
+    block = lines[i0 + 1:i1]
+    eff = kw.get("missing_data_character", "?")
+    if (len(block) < 4 or block[0] != f"DIMENSIONS NCHAR={int(R.m.L)};"
+            or block[1] != f"FORMAT DATATYPE=DNA MISSING={eff};" or block[2] != "MATRIX" or block[-1] != ";"):
+        mon.bad("nexus/data-header", f"{call}: DATA block {block[:3]} ... {block[-1:]}; expected NCHAR={int(R.m.L)} "
+                f"MISSING={eff}")
+        return
+    rows = [tuple(ln.split(" ", 1)) for ln in block[3:-1]]
+    cands = [alignment_strings(R, nodes, inside, lo, base) for base in bases.values()] if nodes else [[]]
+    if not any(rows == [(f"n{u}", a) for u, a in zip(nodes, c)] for c in cands):
+        mon.bad("nexus/matrix", f"{call}: matrix rows {rows}; expected labels {[f'n{u}' for u in nodes]} "
+                f"sequences {cands}")
+
+
+def mon_macs(rng, mon, ts):
+    """to_macs renders variants(copy=False): `SITE:<tab>index<tab>position/L<tab>0.0<tab>genotype characters` (E7)."""
+    R, ctx = mon.R, mon.ctx
+    ok, text = attempt(lambda: ts.to_macs())
+    ctx.count("to_macs:calls")
+    if not ok:
+        ctx.count("to_macs:either-zone-error")
+        return
+    lines = [ln for ln in text.split("\n") if ln.startswith("SITE:")]
+    S = list(R.samples)
+    exp = []
+    for j, s in enumerate(R.sites):
+        al, mi = R.expected(j, S, True)
+        if any(mi) or any(len(a) != 1 or not a.isascii() for a in s["states"]):
+            ctx.count("to_macs:either-zone-result")  # returned although an allele is not one character / is missing
+            return
+        exp.append((str(j), "".join(al)))
+    got = [(ln.split("\t")[1], ln.split("\t")[-1]) for ln in lines]
+    ctx.count("to_macs:compared")
+    if got != exp:
+        mon.bad("to_macs/genotypes", f"to_macs(): site lines {got}, expected {exp}")
+
+
+def alternative_route(rng, ctx, ts):
+    """The same tree sequence as a pickled copy / rebuilt from its tables / dumped and loaded (a share of the cases)."""
+    r = rng.random()
+    if r < 0.90:
+        return ts
+    if r < 0.935:
+        ctx.feature("ts-route:pickle")
+        return pickle.loads(pickle.dumps(ts))
+    if r < 0.97:
+        ctx.feature("ts-route:dump_tables")
+        return ts.dump_tables().tree_sequence()
+    ctx.feature("ts-route:dump-load")
+    with tempfile.TemporaryDirectory(prefix="c03-") as d:
+        path = os.path.join(d, "x.trees")
+        ts.dump(path)
+        return tskit.load(path)
+
+
 def run_case(case, ctx):
     rng, m = build(case)
-    R = GenoRef(m)
+    big = case["gen"] == "big"
+    R = GenoRef(m, fast=big, selfcheck=(not big and case["k"] % 8 == 0))
     mon = Mon(ctx, m, R)
-    tags = gen.topo_tags(m) | model_features(m, R)
+    tags = (big_features(m) if big else gen.topo_tags(m)) | model_features(m, R)
     for t in tags:
         ctx.feature(t)
     ctx.feature("gen:" + case["gen"])
@@ -1158,10 +1611,28 @@ def run_case(case, ctx):
     if case["k"] < 2:
         ctx.sample({"case": case, "model": m.to_json()})
     ts = to_ts(m)
+    if big:
+        # one pass of each decoder; the two paths of tsk_variant_decode are both forced: sample lists (default
+        # samples) and traversal (explicit nodes - here every node, so whole subtrees go over the stack)
+        ctx.count("big:cases")
+        mon.force = "default"
+        mon_variants(rng, mon, ts)
+        mon.force = "all-nodes"
+        mon_variants(rng, mon, ts)
+        mon.force = rng.choice(["default", "all-nodes", None])
+        mon_decode(rng, mon, ts)
+        mon.force = rng.choice(["default", "all-nodes"])
+        mon_genotype_matrix(rng, mon, ts, None)
+        mon.force = rng.choice(["default", None])
+        mon_haplotypes(rng, mon, ts)
+        mon.force = None
+        return
+    ts = alternative_route(rng, ctx, ts)
     for _ in range(2):
         mon_variants(rng, mon, ts)
     for _ in range(2):
         mon_decode(rng, mon, ts)
+    mon_fresh(rng, mon, ts)
     mon_genotype_matrix(rng, mon, ts, None)
     mon_matrix_vs_variants(rng, mon, ts)
     for _ in range(2):
@@ -1170,3 +1641,6 @@ def run_case(case, ctx):
         for _ in range(3 if case["gen"] == "align" else 1):
             mon_alignments(rng, mon, ts)
         mon_fasta(rng, mon, ts)
+        mon_nexus(rng, mon, ts)
+    if rng.random() < 0.25:
+        mon_macs(rng, mon, ts)
